@@ -100,3 +100,95 @@ Proof.
   - intros dl lines _. cbn. destruct dl; reflexivity.
   - intros dl h rest _. reflexivity.
 Qed.
+
+Theorem ref_text_e_ok : Text_OK ref_text_e.
+Proof. split; reflexivity. Qed.
+
+(* ================= the reference float layer ================= *)
+Lemma rhe_exact a d : 0 < d -> 0 <= a -> rhe (a * d) d = a.
+Proof.
+  intros Hd Ha. unfold rhe. rewrite Z.div_mul, Z.mod_mul by lia.
+  replace (2 * 0 <? d) with true by lia. reflexivity.
+Qed.
+
+Lemma strip2_shift k : forall p e, strip2 (Pos.shiftl_nat p k) e = strip2 p (e + Z.of_nat k).
+Proof.
+  induction k as [|k IH]; intros p e.
+  - cbn [Pos.shiftl_nat nat_rect]. f_equal. lia.
+  - change (Pos.shiftl_nat p (S k)) with (xO (Pos.shiftl_nat p k)). cbn [strip2]. rewrite IH. f_equal. lia.
+Qed.
+Lemma shiftl_nat_val k p : Zpos (Pos.shiftl_nat p k) = Zpos p * 2 ^ Z.of_nat k.
+Proof.
+  induction k as [|k IH].
+  - cbn [Pos.shiftl_nat nat_rect]. change (Z.of_nat 0) with 0. rewrite Z.pow_0_r. lia.
+  - change (Pos.shiftl_nat p (S k)) with (xO (Pos.shiftl_nat p k)). rewrite Pos2Z.inj_xO, IH.
+    rewrite Nat2Z.inj_succ, Z.pow_succ_r by lia. ring.
+Qed.
+Lemma strip2_odd p e : Z.odd (Zpos p) = true -> strip2 p e = (Zpos p, e).
+Proof. destruct p; [reflexivity|discriminate|reflexivity]. Qed.
+
+(* an odd m scaled by a power of two normalises back to (m, exponent) *)
+Lemma norm2_odd neg m j e : 0 < m -> Z.odd m = true -> 0 <= j -> norm2 neg (m * 2 ^ j) e = FFin neg m (e + j).
+Proof.
+  intros Hm Ho Hj. destruct m as [|p|p]; try lia.
+  rewrite <- (Z2Nat.id j) by lia. rewrite <- shiftl_nat_val. unfold norm2.
+  rewrite strip2_shift, (strip2_odd p _ Ho). reflexivity.
+Qed.
+
+Lemma ref_nearest_fin neg m e : f64_ok (FFin neg m e) = true ->
+  ref_fnearest neg (scaled (if e <? 0 then - e else 1) m e) (- (if e <? 0 then - e else 1)) = FFin neg m e.
+Proof.
+  unfold f64_ok, ftok_ok. intros H. destruct (m =? 0) eqn:Em.
+  - assert (m = 0) by lia. assert (e = 0) by lia. subst. reflexivity.
+  - assert (Hm : 0 < m) by lia. assert (Ho : Z.odd m = true).
+    { repeat (apply andb_true_iff in H; destruct H as [H ?]). assumption. }
+    clear H. destruct (e <? 0) eqn:Ee.
+    + (* e < 0: the expansion has -e digits, mantissa m * 5^(-e) *)
+      unfold ref_fnearest. replace (0 <=? - - e) with false by lia.
+      unfold scaled. replace (0 <=? e) with false by lia.
+      replace (- - - e) with (- e) by lia. replace (- - e) with e by lia.
+      assert (H5 : 0 < 5 ^ (- e)) by (apply Z.pow_pos_nonneg; lia).
+      assert (H2 : 0 < 2 ^ (- e)) by (apply Z.pow_pos_nonneg; lia).
+      replace (m * 10 ^ (- e)) with (m * 5 ^ (- e) * 2 ^ (- e))
+        by (change 10 with (5 * 2); rewrite Z.pow_mul_l; ring).
+      rewrite rhe_exact by (try apply Z.mul_nonneg_nonneg; lia).
+      rewrite Z.mod_mul, Z.div_mul by lia. cbn [Z.eqb].
+      pose proof (norm2_odd neg m 0 e Hm Ho) as Hn. rewrite Z.pow_0_r, Z.mul_1_r, Z.add_0_r in Hn.
+      apply Hn. lia.
+    + (* e >= 0: an integer, written with one digit after the point *)
+      unfold ref_fnearest. replace (0 <=? - (1)) with false by reflexivity.
+      unfold scaled. replace (0 <=? e) with true by lia.
+      change (- - (1)) with 1. rewrite !Z.pow_1_r.
+      replace (m * 2 ^ e * 10) with (m * 2 ^ (e + 1) * 5) by (rewrite Z.pow_add_r, Z.pow_1_r by lia; ring).
+      rewrite Z.mod_mul, Z.div_mul by lia. cbn [Z.eqb].
+      rewrite norm2_odd by lia. f_equal. lia.
+Qed.
+
+Lemma f64_nonneg neg m e : f64_ok (FFin neg m e) = true -> 0 <= m.
+Proof. unfold f64_ok, ftok_ok. destruct (m =? 0) eqn:E; lia. Qed.
+
+Theorem ref_float_ok : Float_OK ref_float.
+Proof.
+  split.
+  - intros f Hf. destruct f as [neg m e| |neg].
+    + pose proof (f64_nonneg neg m e Hf) as Hm. cbn [ref_float frepr ref_frepr].
+      rewrite py_float_fmt by (try (destruct (e <? 0) eqn:Ee); lia).
+      eexists. split; [reflexivity|]. cbn [cell_double ref_float fnearest]. f_equal.
+      apply ref_nearest_fin, Hf.
+    + exists ONaN. split; vm_compute; reflexivity.
+    + exists (OInf neg). destruct neg; split; vm_compute; reflexivity.
+  - intros f Hf. destruct f as [neg m e| |neg].
+    + pose proof (f64_nonneg neg m e Hf) as Hm. cbn [ref_float frepr ref_frepr].
+      apply py_int_fmt; [destruct (e <? 0) eqn:Ee; lia|exact Hm].
+    + vm_compute. reflexivity.
+    + destruct neg; vm_compute; reflexivity.
+  - intros f Hf. cbn [ref_float frepr]. unfold ref_frepr.
+    assert (HP : forall n g, 0 <= n -> (match g with FFin _ m _ => 0 <= m | _ => True end) ->
+                             forallb float_char (fmt n g) = true).
+    { intros n g Hn Hg. apply fmt_P; try reflexivity; try assumption.
+      intros c Hc. unfold float_char. rewrite Hc. reflexivity. }
+    destruct f as [neg m e| |neg].
+    + apply HP; [destruct (e <? 0) eqn:Ee; lia|apply (f64_nonneg neg m e Hf)].
+    + apply HP; [lia|exact I].
+    + apply HP; [lia|exact I].
+Qed.
